@@ -905,6 +905,12 @@ type StoreMeta struct {
 	Version   uint64
 	StartNano int64
 	Total     int
+	// region sizes of the saved cache: the hill climber moves capacity between
+	// the window and the protected region, and the saved lists are as long as
+	// those sizes allow. A cache of the same size continues from there.
+	Capacity          uint
+	WindowCapacity    uint
+	ProtectedCapacity uint
 }
 
 func (m *StoreMeta) Persist(writer io.Writer, blockEncoder *gob.Encoder) error {
@@ -937,6 +943,10 @@ func (s *Store[K, V]) Persist(version uint64, writer io.Writer) error {
 		Version:   version,
 		StartNano: s.timerwheel.clock.Start.UnixNano(),
 		Total:     total,
+
+		Capacity:          s.policy.capacity,
+		WindowCapacity:    s.policy.window.capacity,
+		ProtectedCapacity: s.policy.slru.protected.capacity,
 	}
 	err := meta.Persist(writer, blockEncoder)
 	if err != nil {
@@ -1073,6 +1083,15 @@ func (s *Store[K, V]) Recover(version uint64, reader io.Reader) error {
 			}
 			s.timerwheel.clock.SetStart(m.StartNano)
 			s.policy.sketch.EnsureCapacity(uint(m.Total))
+			// same cache size: take over the region sizes the lists were saved
+			// under, otherwise whatever the climber had added to a region would
+			// find no room below
+			if m.Capacity == s.policy.capacity && m.WindowCapacity >= 1 &&
+				m.WindowCapacity <= m.Capacity && m.ProtectedCapacity <= m.Capacity-m.WindowCapacity {
+				s.policy.window.capacity = m.WindowCapacity
+				s.policy.slru.protected.capacity = m.ProtectedCapacity
+				s.policy.slru.maxsize = m.Capacity - m.WindowCapacity
+			}
 		case 2: // window lru
 			entryDecoder := gob.NewDecoder(reader)
 			for {
